@@ -259,7 +259,9 @@ func (progBldr *ProgBuilder) Deref() {
 
 		lrefentry, err := valEntry.FollowLeafRef()
 		if err != nil {
-			ctx.execError(err.Error(), "")
+			// The data tree's own error, not a copy of its text.
+			ctx.res.runErr = err
+			return
 		}
 		// The steps that follow append to the path: work on a copy, not on
 		// the path the data tree handed out.
